@@ -89,6 +89,10 @@ type FnCtx struct {
 	ground   map[string]bool
 	localMaps map[string]bool
 	refArr   map[string]bool
+	siteCount int
+	siteOrd  map[ssa.Instruction]int
+	lastSite string
+	lastSiteName string
 }
 
 type retInfo struct {
